@@ -803,6 +803,11 @@ func (v *Verifier) evalCall(env *Env, e *Expr) *Val {
 			}
 		}
 		unsupportedf("unbox: type %s has no leaf %s", tn, path)
+	case "implements":
+		// implements(v, "pkg.Iface"): the (non-nil) interface value v also implements the named interface - the
+		// same term a type assertion v.(pkg.Iface) in code tests
+		a := arg(0)
+		return boolVal(And(Neq(a.Term, IntLit(0)), UF("implements$"+sanitize(args[1].Lit), SBool, dynType(a.Term))))
 	case "hasdyntype":
 		a := arg(0)
 		tn := args[1].Lit
